@@ -177,7 +177,7 @@ specs = {
     ])'''),
 
  "c07": dict(doc="C07 -- arbitrary JWK/JWKS input: no crash, and a well-formed keyring comes back.",
-   mods=["Jwt.Props.C07"], files=["Jwt/Props/C07.lean"], gen=1,
+   mods=["Jwt.Props.C07"], files=["Jwt/Props/C07.lean", "Jwt/Lemmas/PipelineJwk.lean"], gen=3,
    level="Lean theorems for every JSON value and every key-material oracle: set error and no items for non-JSON, exactly one item without a keys member, exactly n items in document order for a keys array, none for a non-array keys; every item is flagged with a message or is a usable key (known kty, PEM or non-empty oct bytes), by case analysis over the member handling of all four key types with Option-tracked json_string_value; preserved by every load. Memory safety/UB/leaks of the compiled code are witnessed by ASan/UBSan/LSan runs: every member x 9 JSON types/absent/truncated/extended/flipped for every key type, non-JWK documents, keys of every type, 0-50 elements, mutated text, all five entry points incl. embedded NUL.",
    assume=["PARTIAL: memory safety, UB and leaks of compiled libjwt/jansson/OpenSSL on these inputs are witnessed by sanitizers, not proved", "EVP_PKEY_fromdata / PEM export acceptance of key material is a parameter (KeyOracle), answered in the harness by an independent OpenSSL caller"],
    body='''    F.run_suites(ctx, model_ok, deep, [
